@@ -113,3 +113,39 @@ Proof.
   - intros x Hx. apply in_map_iff in Hx. destruct Hx as [k [<- Hk]]. apply in_seq.
     assert (M := Nat.mod_upper_bound (r + k) n ltac:(lia)). lia.
 Qed.
+
+(* (ii) as a statement about the elector: over any n consecutive rounds starting anywhere, the leaders are
+   exactly the committee, each authority once *)
+Lemma map_nth_seq {A} (l : list A) d : map (fun i => nth i l d) (seq 0 (length l)) = l.
+Proof.
+  induction l as [|x l IH]; simpl; [reflexivity|]. f_equal.
+  rewrite <- seq_shift, map_map. exact IH.
+Qed.
+
+Theorem c09_rotation ks r : ks <> [] ->
+  Permutation (map (fun k => leader ks (r + N.of_nat k)) (seq 0 (length ks))) ks.
+Proof.
+  intros Hne.
+  assert (Hn : (0 < length ks)%nat) by (destruct ks; [contradiction|simpl; lia]).
+  set (n := length ks) in *.
+  assert (Hs : length (sort ks) = n) by (symmetry; apply Permutation_length, sort_perm).
+  assert (E : map (fun k => leader ks (r + N.of_nat k)) (seq 0 n) =
+              map (fun i => nth i (sort ks) []) (map (fun k => (N.to_nat r + k) mod n)%nat (seq 0 n))).
+  { rewrite map_map. apply map_ext. intros k. unfold leader. fold n. f_equal.
+    assert (Hn' : N.of_nat n <> 0%N) by lia.
+    pose proof (N.mod_upper_bound (r + N.of_nat k) (N.of_nat n) Hn') as Hu.
+    pose proof (N.div_mod (r + N.of_nat k) (N.of_nat n) Hn') as Hd.
+    pose proof (Nat.mod_upper_bound (N.to_nat r + k) n ltac:(lia)) as Hu2.
+    pose proof (Nat.div_mod (N.to_nat r + k) n ltac:(lia)) as Hd2.
+    set (q1 := ((r + N.of_nat k) / N.of_nat n)%N) in *. set (m1 := ((r + N.of_nat k) mod N.of_nat n)%N) in *.
+    set (q2 := ((N.to_nat r + k) / n)%nat) in *. set (m2 := ((N.to_nat r + k) mod n)%nat) in *.
+    assert (Hq : (N.to_nat q1 = q2)%nat).
+    { destruct (Nat.lt_trichotomy (N.to_nat q1) q2) as [H|[H|H]]; [exfalso|exact H|exfalso].
+      - assert (n * (N.to_nat q1 + 1) <= n * q2)%nat by (apply Nat.mul_le_mono_l; lia). lia.
+      - assert (n * (q2 + 1) <= n * N.to_nat q1)%nat by (apply Nat.mul_le_mono_l; lia). lia. }
+    subst q2. lia. }
+  rewrite E.
+  eapply perm_trans; [apply Permutation_map, rot_perm; exact Hn|].
+  rewrite <- Hs, map_nth_seq. apply Permutation_sym, sort_perm.
+Qed.
+Print Assumptions c09_rotation.
